@@ -179,7 +179,8 @@ func classifyMF(c mfCase, res wholeResult) string {
 	case staging:
 		return cause + "-leaks-staging:" + c.entry + mode
 	case merged:
-		return cause + "-commits-partial:" + c.entry + mode
+		// the merged output (and possibly intermediates) stayed although the call did not return nil
+		return cause + "-leaves-merged-output:" + c.entry + mode
 	case c.merge && parts > 0:
 		return cause + "-leaves-intermediates:" + c.entry + mode
 	case parts > 0 && cause == "panic":
